@@ -34,6 +34,10 @@ pub(super) fn parse_sas_hex_string(pending_token_text: &str) -> Result<String, E
             let hex_char = cleaned_text
                 .get(i..i + 2)
                 .ok_or(ErrorKind::InvalidHexStringConstant)?;
+            // `from_str_radix` also accepts a leading sign, which is not a hex digit
+            if !hex_char.bytes().all(|b| b.is_ascii_hexdigit()) {
+                return Err(ErrorKind::InvalidHexStringConstant);
+            }
             u8::from_str_radix(hex_char, 16).map_err(|_| ErrorKind::InvalidHexStringConstant)
         })
         .collect();
